@@ -1,6 +1,6 @@
 SPECIFICATION Spec
 CONSTANTS
-  MaxSteps = 6
+  MaxSteps = 5
   MaxIdx = 3
   Watch = TRUE
 INVARIANT NoGaps
